@@ -340,9 +340,50 @@ def build_harness():
 
 # ---------------------------------------------------------------------------------- runners
 
+def _run_one(binary, cases, cf, of, timeout):
+    with open(cf, "w") as f:
+        f.write("\n".join(cases) + "\n")
+    if os.path.exists(of):
+        os.remove(of)
+    try:
+        p = subprocess.run([binary, cf, of], stdout=subprocess.DEVNULL, stderr=subprocess.PIPE, env=ENV, timeout=timeout)
+        rc, err = p.returncode, p.stderr
+    except subprocess.TimeoutExpired:
+        rc, err = 124, b"timeout"
+    lines = open(of).read().split("\n") if os.path.exists(of) else []
+    if lines and lines[-1] == "":
+        lines.pop()
+    return rc, err, lines
+
+
+def _isolate(binary, cases, cf, of, timeout, depth=0):
+    """a runner died (abort, stack overflow, kill) or hung on this list of cases: find the case(s)
+    responsible by bisection and give them an ABORT line; every other case gets its ordinary output"""
+    if not cases:
+        return []
+    rc, err, lines = _run_one(binary, cases, cf, of, timeout)
+    if rc == 0 and len(lines) == len(cases):
+        return lines
+    if len(cases) == 1:
+        why = "timeout" if rc == 124 else "exit status %s" % rc
+        return ["ABORT %s %s" % (why, err.decode("utf-8", "replace")[-160:].replace("\n", " "))]
+    if depth > 24:
+        return ["RUNNER-FAIL rc=%s" % rc] * len(cases)
+    # the cases before the crash point have output already: keep it, isolate in the rest
+    done = lines[:len(cases)] if rc != 124 else []
+    k = len(done)
+    if k >= len(cases):
+        k = len(cases) - 1
+        done = done[:k]
+    rest = cases[k:]
+    first = _isolate(binary, rest[:1], cf, of, timeout, depth + 1)
+    return done + first + _isolate(binary, rest[1:], cf, of, timeout, depth + 1)
+
+
 def run_sharded(binary, cases, tag, workdir, timeout=1800):
     """run `binary` over `cases` (list of lines) split into NPROC shards; returns list of output lines
-    (same length; a crashed/timeout shard yields 'RUNNER-FAIL ...' lines)."""
+    (same length).  A shard whose process dies or hangs is re-run by bisection so that the responsible
+    case gets an `ABORT ...` line and the others their ordinary output."""
     n = len(cases)
     if n == 0:
         return []
@@ -359,10 +400,11 @@ def run_sharded(binary, cases, tag, workdir, timeout=1800):
         if os.path.exists(of):
             os.remove(of)
         procs.append((subprocess.Popen([binary, cf, of], stdout=subprocess.DEVNULL, stderr=subprocess.PIPE,
-                                       env=ENV), cf, of, len(sc)))
+                                       env=ENV), cf, of, sc))
     outs = []
     deadline = time.time() + timeout
-    for p, cf, of, k in procs:
+    for p, cf, of, sc in procs:
+        k = len(sc)
         try:
             _, err = p.communicate(timeout=max(1, deadline - time.time()))
             rc = p.returncode
@@ -375,8 +417,12 @@ def run_sharded(binary, cases, tag, workdir, timeout=1800):
         if lines and lines[-1] == "":
             lines.pop()
         if rc != 0 or len(lines) != k:
-            why = "RUNNER-FAIL rc=%s lines=%d/%d %s" % (rc, len(lines), k, err.decode("utf-8", "replace")[-200:].replace("\n", " "))
-            lines = lines[:k] + [why] * (k - len(lines))
+            if rc == 124:
+                # a hang: isolating by re-running costs a timeout per probe; keep it short
+                lines = _isolate(binary, sc, cf + ".iso", of + ".iso", 20) if k <= 4000 else \
+                    lines[:k] + ["RUNNER-FAIL rc=124 timeout"] * (k - len(lines[:k]))
+            else:
+                lines = _isolate(binary, sc, cf + ".iso", of + ".iso", 120)
         outs.append(lines)
     res = [None] * n
     for i, lines in enumerate(outs):
